@@ -34,6 +34,7 @@ THEOREMS = [
     "SynKit.SubgraphSearch.prefilter_spec",
     "SynKit.Match.mem_allMonos",
     "SynKit.Match.allMonos_nodup",
+    "SynKit.SubgraphSearch.comp_complete",
 ]
 
 NODE_KEYS = [["element"], ["element", "charge"], ["element", "charge"], []]
@@ -125,10 +126,10 @@ def evaluate(ctx, cases, tag):
         ctx.count("matches:" + ("0" if total == 0 else "1" if total == 1 else "many"))
         ctx.count(f"components:h{min(hcc, 3)}p{min(pcc, 3)}" + ("(host fewer)" if hcc < pcc else ""))
         if not mod["comp_model_eq_spec"]:
-            # completeness of the component-aware model (`comp_complete`) is not proved; it is tested here on
-            # every case against the brute-force specification
+            # completeness of the component-aware model is proved (`comp_complete`); it is additionally tested
+            # here on every case against the brute-force specification
             ctx.count("comp_model_differs_from_spec")
-            ctx.violation("model of the component-aware strategy differs from its brute-force specification (unproved clause comp_complete)",
+            ctx.violation("model of the component-aware strategy differs from its brute-force specification (clause comp_complete)",
                           case_json(host, pat, nk, ek, cfgs[0] if cfgs else None), {"stream": tag}, no_input=True)
         nontrivial = total >= 1 and host.number_of_nodes() >= 2
         ctx.case([graphio.graph(host), graphio.graph(pat), nk, ek], nontrivial,
@@ -222,6 +223,32 @@ def gen_random(ctx, count):
     return out
 
 
+def gen_selection_history(ctx, count):
+    """Attribute-selection histories: the same (host, pattern) is searched several times in a row with
+    different node/edge attribute selections — selections that are permutations of each other, that
+    share their concatenation (an attribute such as `in_ring` exists on atoms AND on bonds in SynKit's
+    own graphs), or that are sub-selections.  No answer may depend on the selections used earlier."""
+    rnd = ctx.rnd
+    out = []
+    sels = [(("element",), ("in_ring",)), (("element", "in_ring"), ()), (("in_ring", "element"), ()),
+            (("in_ring",), ("order",)), (("element",), ("order", "in_ring")), (("element", "charge"), ("order",)),
+            (("charge", "element"), ("order",)), ((), ("in_ring",)), (("in_ring",), ())]
+    for _ in range(count):
+        host = matchgen.mol_like(rnd, rnd.randint(3, 7))
+        for n in host.nodes:
+            host.nodes[n]["in_ring"] = rnd.random() < 0.5
+        for u, v in host.edges:
+            host[u][v]["in_ring"] = rnd.random() < 0.5
+        pat, tag = matchgen.pattern_from(rnd, host, rnd.randint(1, 3), 1, edit_p=0.2)
+        for n in pat.nodes:
+            if rnd.random() < 0.3:
+                pat.nodes[n]["in_ring"] = rnd.random() < 0.5
+        seq = rnd.sample(sels, rnd.randint(3, 5))
+        for nk, ek in seq:
+            out.append((host, pat, nk, ek, "selection-history"))
+    return out
+
+
 def with_cfgs(ctx, pairs, limited=3):
     """Two passes: the base (unlimited) configurations, plus limited ones drawn knowing the match count."""
     cases = []
@@ -291,6 +318,8 @@ def run(ctx):
     nrand = 500 if ctx.quick else 6000
     if not ctx.violations:
         evaluate(ctx, with_cfgs(ctx, gen_random(ctx, nrand)), "random")
+    if not ctx.violations:
+        evaluate(ctx, with_cfgs(ctx, gen_selection_history(ctx, 60 if ctx.quick else 600), limited=1), "selection-history")
     ctx.obligation("correspondence: find_subgraph_mappings impl == model (mapping sets; limited runs: subset + length; inputs unmodified)",
                    not ctx.violations)
 
